@@ -84,3 +84,4 @@ declare_fields('ConditionLine', _condition='PreprocessorCondition')
 declare_fields('DefineSymbolLine', _symbol='PreprocessorSymbol')
 declare_fields('InstructionMacroVariant', _variant_config='cfg', _operand_parser='OperandParser?', _variant_num='int')
 declare_fields('InstructionMacro', _config='cfg', _variants='list[InstructionMacroVariant]')
+declare_fields('OperandSetCollection', __dict='dict[str,OperandSet]')
